@@ -4,7 +4,7 @@
    model/Lines.v (the class of canonical token lines), tables regenerated in gen/Gen_tokens.v. *)
 From Coq Require Import ZArith List Bool.
 From PCB Require Import lib.Result lib.PyInt lib.Harness gen.Gen_tokens model.Tok model.Lister model.Lines
-  proofs.Tok_tables proofs.Tok_words proofs.Lines_tables proofs.Lines_roundtrip.
+  proofs.Tok_tables proofs.Tok_bijection proofs.Tok_words proofs.Lines_tables proofs.Lines_roundtrip.
 Import ListNotations.
 Open Scope Z_scope.
 
